@@ -65,7 +65,7 @@ type dev struct {
 func main() {
 	r := mc.NewRun("C06")
 	k := mc.Pick(r, 3, 4)
-	r.Rule(fmt.Sprintf("E5 deviation lattice: a baseline request (both technologies, all GCE VMSA counts, Milan, no shapes) plus every subset of <=%d of the deviations {technology subsets, VMSA count 1/2/5/240, Genoa / unknown product, shape lists (single, pair, duplicate, unknown shape), early accept, SVN, family/image ids valid/invalid, SVSM measurement, commit instead of changelist, timestamps, image valid for one technology only / neither}; non-trivial = distinct requests for which a document was produced and every entry matched the reference", k))
+	r.Rule(fmt.Sprintf("E5 deviation lattice: a baseline request (both technologies, all GCE VMSA counts, Milan, no shapes) plus every subset of <=%d of the deviations {technology subsets, VMSA count 1/2/5/240, Genoa / unknown product, shape lists (single, pair, duplicate, unknown shape, upper-case and blank-prefixed spellings), early accept, SVN, family/image ids valid/invalid, SVSM measurement, commit instead of changelist, timestamps, image valid for one technology only / neither}; non-trivial = distinct requests for which a document was produced and every entry matched the reference", k))
 	auth, err := fx.NewAuthority(fx.T0, "c06")
 	if err != nil {
 		mc.Fatal("%v", err)
@@ -94,6 +94,10 @@ func main() {
 			q.shapes = []string{"c3-standard-4", "c3-standard-8", "c3-standard-22", "c3-standard-44", "c3-standard-88", "c3-standard-176"}
 		}},
 		{"shape=unknown", func(q *req) { q.shapes = []string{"n2d-standard-2"} }},
+		// spellings a flag list produces easily; they may be refused, or be taken for the shape they
+		// spell - but then the row must be that shape's (size and MRTD), not a placeholder
+		{"shape=UPPERCASE", func(q *req) { q.shapes = []string{"C3-STANDARD-4"} }},
+		{"shapes=blank-after-comma", func(q *req) { q.shapes = []string{"c3-standard-4", " c3-standard-8"} }},
 		{"early", func(q *req) { q.early = true }},
 		{"svn=7", func(q *req) { q.svn = 7 }},
 		{"family=custom", func(q *req) { q.family = "11111111-2222-3333-4444-555555555555" }},
@@ -221,6 +225,9 @@ func one(r *mc.Run, auth *fx.Authority, images [][]byte, q req, id string) strin
 				return d
 			}
 			for _, s := range q.shapes {
+				if c := strings.ToLower(strings.TrimSpace(s)); ref.ShapeRAMGiB(s) == 0 && ref.ShapeRAMGiB(c) != 0 {
+					s = c // if the tool accepts this spelling at all, it stands for the shape it spells
+				}
 				if ref.ShapeRAMGiB(s) == 0 {
 					mustFail = append(mustFail, "unknown machine shape "+s)
 					continue
